@@ -2,6 +2,7 @@
    Only statements; every proof is `exact <lemma>`. *)
 From Coq Require Import ZArith List Bool.
 From FcpV Require Import Sched.Sched Sched.SchedProofs.
+From FcpV Require Import Sched.SchedGenLib Sched.SchedGenProofs.
 Import ListNotations.
 Open Scope Z_scope.
 
@@ -78,3 +79,11 @@ Proof.
   - Transparent W. cbn. unfold W. repeat split; try discriminate; reflexivity.
   - vm_compute. reflexivity.
 Qed.
+
+(* ---- the generated C itself: harness/c2coq.py translates clang's AST of every generated can_send_<dev>_msgs_scheduled to
+   Gallina and Coq checks, per device, that the translation is convertible with shape_step <periods> (the statement sequence
+   the template unrolls to); that sequence is the model step for every period list ---- *)
+Theorem generated_statement_sequence_is_the_model :
+  forall ps s t, length (last_send s) = length ps -> shape_step ps s t = model_step ps s t.
+Proof. exact shape_is_model. Qed.
+Print Assumptions generated_statement_sequence_is_the_model.
